@@ -184,3 +184,32 @@ Theorem C09_nonblocking_round_robin_worker_pushes_to_the_drawn_edge :
   pkd q = KPush /\ pown q = n /\ pit q = pit (Factory.me w p) /\ pix q = nth (k mod m) (nouts nd) 0%nat /\ ppc q = 0%nat /\ palive q = true.
 Proof. exact FactoryBlocks.worker_nonblocking_round_robin_pushes. Qed.
 Print Assumptions C09_nonblocking_round_robin_worker_pushes_to_the_drawn_edge.
+
+(* Tie B: the non-blocking paths of the node processes, re-read from nodes/*.py on every run (theories/Factory/TieCommit.v): under
+   FIRST_AVAILABLE the edge chosen is the first out-edge whose can_put() says yes, the item is pushed exactly when there is one
+   and dropped (discard counted) otherwise; under an index policy the drawn edge's can_put() is CALLED.  The model's
+   [first_can_put] is that search (C09_model_probe_is_first_with_room), so the block-level theorems above speak about what the
+   source does. *)
+From FV Require SrcFragments TieCommit.
+Theorem C09_probe_loops_regenerated :
+  forall l r e,
+  SrcFragments.Source_behaviour_probe l = find SrcFragments.ed_can_put l /\
+  SrcFragments.Source_behaviour_probe_pushes r = (match r with Some _ => true | None => false end) /\
+  SrcFragments.Source_behaviour_index_probe e = SrcFragments.ed_can_put e /\
+  SrcFragments.Machine_worker_probe l = find SrcFragments.ed_can_put l /\
+  SrcFragments.Machine_worker_probe_pushes r = (match r with Some _ => true | None => false end) /\
+  SrcFragments.Machine_worker_index_probe e = SrcFragments.ed_can_put e /\
+  SrcFragments.Splitter_worker_probe l = find SrcFragments.ed_can_put l /\
+  SrcFragments.Splitter_worker_probe_pushes r = (match r with Some _ => true | None => false end) /\
+  SrcFragments.Splitter_worker_index_probe e = SrcFragments.ed_can_put e /\
+  SrcFragments.Combiner_worker_probe l = find SrcFragments.ed_can_put l /\
+  SrcFragments.Combiner_worker_probe_pushes r = (match r with Some _ => true | None => false end) /\
+  SrcFragments.Combiner_worker_index_probe e = SrcFragments.ed_can_put e.
+Proof. intros l r e. repeat split. Qed.
+Print Assumptions C09_probe_loops_regenerated.
+
+Theorem C09_model_probe_is_first_with_room :
+  forall w es, Factory.first_can_put w es =
+               option_map SrcFragments.ed_id (find SrcFragments.ed_can_put (map (TieCommit.abs_edge w) es)).
+Proof. exact TieCommit.model_probe_is_first_with_room. Qed.
+Print Assumptions C09_model_probe_is_first_with_room.
